@@ -1220,27 +1220,29 @@ class Exec:
             if o.kind != 'heap': raise Violation('memory', 'free of non-heap pointer', st)
             o.freed = True; return 0
         if name.startswith('llvm.memcpy') or name.startswith('llvm.memmove'):
-            n = a[2]
-            if not isc(n): raise Violation('unsupported', 'symbolic memcpy length', st)
-            if n == 0: return 0
-            src = a[1]; dst = a[0]
-            s.check_access(st, src, n, 'memcpy-src'); s.check_access(st, dst, n, 'memcpy-dst')
-            if not (isc(src.off) and isc(dst.off)):
-                # symbolic source/destination offset: one path per feasible pair of offsets (model-guided enumeration)
+            n = a[2]; src = a[1]; dst = a[0]
+            if not (isc(n) and isc(src.off) and isc(dst.off)):
+                # symbolic length or source/destination offset: one path per feasible (length, offsets) triple (model-guided enumeration)
+                if src.obj == 0 or dst.obj == 0:
+                    if isc(n) or s.sat(st, n != 0) is not None: raise Violation('memory', 'memcpy through a null pointer', st)
+                    return 0
                 def B(v): return z3.BitVecVal(v, 64) if isc(v) else v
+                def val(m, v): return v if isc(v) else m.eval(v, model_completion=True).as_long()
                 feas = []; block = []
                 while True:
                     m = s.sat(st, z3.And(*block) if block else None)
                     if m is None: break
-                    so_ = src.off if isc(src.off) else m.eval(src.off, model_completion=True).as_long()
-                    do_ = dst.off if isc(dst.off) else m.eval(dst.off, model_completion=True).as_long()
-                    cnd = z3.And(B(src.off) == z3.BitVecVal(so_, 64), B(dst.off) == z3.BitVecVal(do_, 64))
-                    feas.append((cnd, so_, do_)); block.append(z3.Not(cnd))
-                    if len(feas) > 64: raise Violation('unsupported', 'memcpy with more than 64 feasible offset pairs', st)
+                    n_ = val(m, n); so_ = val(m, src.off); do_ = val(m, dst.off)
+                    cnd = z3.And(B(n) == z3.BitVecVal(n_, 64), B(src.off) == z3.BitVecVal(so_, 64), B(dst.off) == z3.BitVecVal(do_, 64))
+                    feas.append((cnd, n_, so_, do_)); block.append(z3.Not(cnd))
+                    if len(feas) > 64: raise Violation('unsupported', 'memcpy with more than 64 feasible (length, offset) combinations', st)
                 if not feas: return 'infeasible'
-                def again(state, so_, do_): s.builtin(state, state.frames[-1], name, [Ptr(dst.obj, do_), Ptr(src.obj, so_)] + list(a[2:]), x, work)
-                for cnd, so_, do_ in feas[:-1]: s.fork_ret(st, x, cnd, 0, work, post=lambda o, u=so_, v=do_: again(o, u, v))
-                cnd, so_, do_ = feas[-1]; s.assume(st, cnd); src = Ptr(src.obj, so_); dst = Ptr(dst.obj, do_)
+                def again(state, n_, so_, do_): s.builtin(state, state.frames[-1], name, [Ptr(dst.obj, do_), Ptr(src.obj, so_), n_] + list(a[3:]), x, work)
+                for cnd, n_, so_, do_ in feas[:-1]: s.fork_ret(st, x, cnd, 0, work, post=lambda o, t=n_, u=so_, v=do_: again(o, t, u, v))
+                cnd, n_, so_, do_ = feas[-1]; s.assume(st, cnd); n = n_; src = Ptr(src.obj, so_); dst = Ptr(dst.obj, do_)
+            if n == 0: return 0
+            if n >= (1 << 63): raise Violation('memory', 'memcpy with a negative length', st)
+            s.check_access(st, src, n, 'memcpy-src'); s.check_access(st, dst, n, 'memcpy-dst')
             so = st.objs[src.obj]
             # copy cells fully inside the range, bytes otherwise
             # fast path: preserve whole cells
